@@ -205,16 +205,20 @@ var libFuncs = map[string]libFn{
 
 	"time.Unix": {coq: "time_Unix", args: []string{"int64", "int64"}, res: tTime},
 
-	"fmt.Errorf":                        {errKind: "fmt.Errorf"},
-	"errors.New":                        {errKind: "errors.New"},
-	"shanhu.io/g/errcode.Unauthorizedf": {errKind: "Unauthorized"},
-	"shanhu.io/g/errcode.Internalf":     {errKind: "Internal"},
-	"shanhu.io/g/errcode.InvalidArgf":   {errKind: "InvalidArg"},
-	"shanhu.io/g/errcode.NotFoundf":     {errKind: "NotFound"},
-	"shanhu.io/g/errcode.Forbiddenf":    {errKind: "Forbidden"},
-	"shanhu.io/g/errcode.TimeOutf":      {errKind: "TimeOut"},
-	"shanhu.io/g/errcode.Annotate":      {annotate: true},
-	"shanhu.io/g/errcode.Annotatef":     {annotate: true},
+	"fmt.Errorf":                         {errKind: "fmt.Errorf"},
+	"errors.New":                         {errKind: "errors.New"},
+	"shanhu.io/g/errcode.Unauthorizedf":  {errKind: "Unauthorized"},
+	"shanhu.io/g/errcode.Internalf":      {errKind: "Internal"},
+	"shanhu.io/g/errcode.InvalidArgf":    {errKind: "InvalidArg"},
+	"shanhu.io/g/errcode.NotFoundf":      {errKind: "NotFound"},
+	"shanhu.io/g/errcode.Forbiddenf":     {errKind: "Forbidden"},
+	"shanhu.io/g/errcode.TimeOutf":       {errKind: "TimeOut"},
+	"shanhu.io/g/errcode.IsNotFound":     {coq: "errcode_Is \"NotFound\"", args: []string{tErr}, res: tBool},
+	"shanhu.io/g/errcode.IsInvalidArg":   {coq: "errcode_Is \"InvalidArg\"", args: []string{tErr}, res: tBool},
+	"shanhu.io/g/errcode.IsInternal":     {coq: "errcode_Is \"Internal\"", args: []string{tErr}, res: tBool},
+	"shanhu.io/g/errcode.IsUnauthorized": {coq: "errcode_Is \"Unauthorized\"", args: []string{tErr}, res: tBool},
+	"shanhu.io/g/errcode.Annotate":       {annotate: true},
+	"shanhu.io/g/errcode.Annotatef":      {annotate: true},
 }
 
 // methods by receiver Go type + "." + name
